@@ -495,6 +495,12 @@ def run(ctx):
             hbfs._guard(repeat_case, case)
         except Violation as v:
             ctx.report(case, v)
+    case = {'leg': 'huge_population', 'n': 100001, 'seed': ctx.seed * 1000 + 1}
+    ctx.traces += 2
+    try:
+        ctx.outcome(('huge', hbfs._guard(huge_population_case, case)))
+    except Violation as v:
+        ctx.report(case, v)
     for kind in ('plain', 'grid'):
         case = {'leg': 'mutable_seed', 'kind': kind, 'seed': f'buffer-{ctx.seed}', 'steps': 3}
         ctx.traces += 2
@@ -542,6 +548,39 @@ def repeat_in_process(kind, seed, steps):
     second = solo(kind, seed, steps)
     del keep
     return [first, second]
+
+
+def huge_population_case(case):
+    """A population beyond any size threshold (100 001 agents): a shuffle and a series of picks with the same seed are
+    the same whatever the ambient generators (random, numpy.random) hold."""
+    n = case['n']
+
+    def run(perturb_seed):
+        reset_library()
+        random.seed(perturb_seed)
+        np.random.seed(perturb_seed % 1000)
+        m = Core.Model(seed=case['seed'])
+        env = m.environment
+        for i in range(n):
+            a = Core.Agent(f'h{i}', m, tag=i % 2)
+            if i % 500 == 0:      # (registering a component scans its pool: a few hundred carriers keep this linear)
+                a.add_component(Wealth(a, m, i))
+            env.add_agent(a)
+        random.random()
+        np.random.rand(2)
+        order = env.shuffle()
+        picks = [env.get_random_agent().id for _ in range(20)]
+        rich = env.shuffle(Wealth)
+        tagged = env.shuffle(tag=1)
+        blob = repr(([a.id for a in order], picks, [a.id for a in rich], [a.id for a in tagged], m.random.random()))
+        return hashlib.sha1(blob.encode()).hexdigest(), len(order), len(rich)
+    a, b = run(11), run(987)
+    if a != b:
+        raise Violation(f'a model of {n} agents seeded with {case["seed"]} shuffles / picks differently when the ambient '
+                        f'random and numpy.random generators were seeded differently', expected=a, observed=b)
+    if a[1] != n or a[2] != (n + 499) // 500:
+        raise Violation('shuffle of the huge population is not a permutation of it', observed=a)
+    return a[0]
 
 
 def mutable_seed_case(case):
@@ -593,6 +632,9 @@ def repeat_case(case):
 
 
 def replay(case):
+    if case['leg'] == 'huge_population':
+        hbfs._guard(huge_population_case, case)
+        return
     if case['leg'] == 'mutable_seed':
         hbfs._guard(mutable_seed_case, case)
         return
